@@ -44,7 +44,7 @@ def cases(max_depth, text_classes=None):
     })
 
 
-FOREIGN_CLASSES = ["plain", "squote", "xmlmeta", "nonascii", "lookalike"]
+FOREIGN_CLASSES = None     # every text class: the emitter quotes list fields the standard csv way
 
 
 def foreign_cases(max_depth):
@@ -252,8 +252,8 @@ def unrepresentable_body(case):
 
 def plan(tier):
     if tier == "quick":
-        return ([{"name": "rt%d" % i, "type": "rt", "n": 60, "depth": 3} for i in range(10)] +
-                [{"name": "foreign%d" % i, "type": "foreign", "n": 50, "depth": 2} for i in range(4)] +
+        return ([{"name": "rt%d" % i, "type": "rt", "n": 160, "depth": 3} for i in range(10)] +
+                [{"name": "foreign%d" % i, "type": "foreign", "n": 120, "depth": 2} for i in range(4)] +
                 [{"name": "unrep%d" % i, "type": "unrep", "n": 40} for i in range(2)])
     return ([{"name": "rt%d" % i, "type": "rt", "n": 3000, "depth": 4} for i in range(11)] +
             [{"name": "foreign%d" % i, "type": "foreign", "n": 2500, "depth": 3} for i in range(4)] +
